@@ -47,6 +47,9 @@ TRAIL = ['SW/4', 'N2S2', 'W2E2', 'Lot 1', 'RoW 3',
          'lying within RoW', 'lying north of the river',
          'described as follows', 'less and except the wellbore',
          'containing 40 acres, more or less', 'as shown on the plat', '']
+TRAIL2 = ['and south of the river', 'excluding the pond',
+          'subject to the easement', 'lying east of the fence',
+          'less the north 100 feet', 'S2N2']
 _SEP = ',;:-–—\t\n .'
 _CULL = re.compile(r'(\s+(the|all in|all of|all|of|in|and))+$', re.I)
 
@@ -189,22 +192,32 @@ def gen_sec_within(rng):
     r = rng.randint(3, 99)
     ns, ew = rng.choice('ns'), rng.choice('ew')
     trtxt = f"T{t}{ns.upper()}-R{r}{ew.upper()}"
-    place = rng.choice(['before', 'before_nl', 'within', 'after'])
+    place = rng.choice(['before', 'before_nl', 'within', 'after',
+                        'split-trail'])
     conn = rng.choice([' of ', ' in '])
+    trail2 = ''
+    if place == 'split-trail':
+        # the Twp/Rge stands inside the trailing text: two trailing pieces,
+        # attached in reading order
+        trail = rng.choice([x for x in TRAIL if x])
+        trail2 = rng.choice(TRAIL2)
     if place == 'before':
         txt = f"{trtxt}: {lead}{conn}{st} {trail}"
     elif place == 'before_nl':
         txt = f"{trtxt}\n{lead}{conn}{st} {trail}"
     elif place == 'within':
         txt = f"{lead}{conn}{st}, {trtxt} {trail}"
+    elif place == 'split-trail':
+        txt = f"{lead}{conn}{st} {trail}, {trtxt}{rng.choice([', ', ' '])}{trail2}"
     else:
         txt = f"{lead}{conn}{st} {trail}, {trtxt}"
     txt = txt.strip().rstrip(',').strip()
-    desc = (lead + ' ' + trail).strip()
+    desc = ' '.join(x for x in (lead, trail, trail2) if x)
     exp = [[f"{t}{ns}{r}{ew}{n:02d}", desc] for n in nums]
     return {'sec_within': True, 'text': txt, 'expected': exp, 'trail': trail,
             'place': place, 'multi': len(nums) > 1,
-            'channel': rng.choice(['config', 'config', 'keyword'])}
+            'channel': rng.choice(['config', 'config', 'keyword',
+                                   'keyword-nocommit'])}
 
 
 def check_sec_within(case, ctx, rec, pytrs):
@@ -215,19 +228,40 @@ def check_sec_within(case, ctx, rec, pytrs):
     ctx.hit('sec_within')
     rec.reset()
     with ctx.guard(case):
+        tracts = None
         if case.get('channel') == 'keyword':
             d = pytrs.PLSSDesc(txt, wait_to_parse=True)
             d.parse(sec_within=True)
+        elif case.get('channel') == 'keyword-nocommit':
+            # the what-if parse: the returned tracts are the only carrier
+            # of the result and of its warnings
+            ctx.hit('sec_within:nocommit')
+            d = pytrs.PLSSDesc(txt, wait_to_parse=True)
+            tracts = list(d.parse(sec_within=True, commit=False))
         else:
             d = pytrs.PLSSDesc(txt, config='sec_within')
         sw = rec.of('sec_within')
         wit = {'rebuild': sw[-1] if sw else None}
-        if tr(d) != exp:
+        if tracts is None:
+            tracts = list(d.tracts)
+        got = [[t.trs, t.desc] for t in tracts]
+        if got != exp:
             ctx.violation('sec_within-tracts', case,
-                          f"{txt!r}: {tr(d)}, expected {exp} (e_flags "
+                          f"{txt!r}: {got}, expected {exp} (e_flags "
                           f"{d.e_flags})", dedup=case['place'], witness=wit)
             return
         if case['trail']:
+            # the warning is on the tract it concerns ...
+            bare = [t.trs for t in tracts
+                    if f"sec_within<{t.trs}>" not in t.w_flags]
+            if bare:
+                ctx.violation('sec_within-warning-missing', case,
+                              f"{txt!r}: tract(s) {bare} do not carry their "
+                              f"sec_within warning (w_flags "
+                              f"{[t.w_flags for t in tracts][:2]})",
+                              dedup='tract|' + case['place'], witness=wit)
+                return
+        if case['trail'] and case.get('channel') != 'keyword-nocommit':
             missing = [e[0] for e in exp
                        if f"sec_within<{e[0]}>" not in d.w_flags]
             if missing:
@@ -235,7 +269,7 @@ def check_sec_within(case, ctx, rec, pytrs):
                               f"{txt!r}: no sec_within warning for {missing} "
                               f"(w_flags {d.w_flags})", dedup=case['place'],
                               witness=wit)
-        if d.e_flags:
+        if d.e_flags and case.get('channel') != 'keyword-nocommit':
             ctx.violation('sec_within-error-flag', case,
                           f"{txt!r}: error flags {d.e_flags} although all "
                           f"text was attached", dedup=case['place'])
